@@ -12,7 +12,7 @@ Coercion: as in `Bech32Code`, `bv : List UInt8 → List (BitVec 8)` (bijection, 
 import Iota.Gen.Ed
 import Iota.Model.Vrf
 import Iota.Tie.GoFlow
-import Iota.Tie.Bech32Code
+import Iota.Tie.BV
 
 namespace Iota.Tie.VrfCode
 open Iota Iota.Go
